@@ -138,6 +138,9 @@ class Ctx:
     self.known_hits = []
     self.notes = []
     self.known = [e for e in load_known(prop) if e.get('status') == 'known']
+    self.enum_evals = 0
+    self.enum_distinct = 0
+    self.enum_nontrivial = 0
 
   # -- recording
   def out_of_time(self):
@@ -181,6 +184,13 @@ class Ctx:
           if not s['nontrivial']:
             self.samples[i] = {'nontrivial': True, 'case': sample}
             break
+
+  def enum(self, evaluations, distinct, nontrivial):
+    """Counts for enumerated scopes where every case is distinct by construction."""
+    self.evaluations += int(evaluations)
+    self.enum_evals += int(evaluations)
+    self.enum_distinct += int(distinct)
+    self.enum_nontrivial += int(nontrivial)
 
   def is_known(self, v):
     for e in self.known:
@@ -289,6 +299,7 @@ class Ctx:
         'counters': dict(self.counters), 'resid': self.resid,
         'samples': self.samples, 'violations': self.violations,
         'known_hits': self.known_hits, 'notes': self.notes,
+        'enum': [self.enum_evals, self.enum_distinct, self.enum_nontrivial],
     }
 
 
@@ -425,7 +436,7 @@ def run_check(prop, tier, seed, workers=None, only_kinds=None):
         except Exception as e:  # worker crashed
           results.append({'ok': False, 'error': f'worker crashed: {type(e).__name__}: {e}',
                           'task': t, 'evaluations': 0, 'programs': 0, 'fps': {},
-                          'labels': {}, 'counters': {}, 'resid': {}, 'samples': [],
+                          'labels': {}, 'counters': {}, 'resid': {}, 'samples': [], 'enum': [0, 0, 0],
                           'violations': [], 'known_hits': [], 'notes': [], 'wall_s': 0})
   return finish(prop, mod, tier, seed, results, time.time() - t0)
 
@@ -459,6 +470,9 @@ def finish(prop, mod, tier, seed, results, wall):
   samples.sort(key=lambda s: not s['nontrivial'])
   samples = [s['case'] for s in samples[:5]]
   distinct_nt = sum(1 for v in fps.values() if v)
+  enum_evals = sum(r.get('enum', [0, 0, 0])[0] for r in results)
+  enum_distinct = sum(r.get('enum', [0, 0, 0])[1] for r in results)
+  distinct_nt += sum(r.get('enum', [0, 0, 0])[2] for r in results)
 
   # replay files
   lines = []
@@ -489,7 +503,8 @@ def finish(prop, mod, tier, seed, results, wall):
   coverage = {
       'evaluations': int(evaluations),
       'distinct_nontrivial': int(distinct_nt),
-      'distinct_cases': len(fps),
+      'distinct_cases': len(fps) + enum_distinct,
+      'enumerated_cases': enum_evals,
       'programs': int(programs),
       'rule': mod.RULE,
       'samples': samples,
